@@ -444,7 +444,9 @@ func (k *Keeper) ApplyMessageWithConfig(ctx sdk.Context,
 	// for more info https://github.com/evmos/ethermint/issues/1085
 	gasLimit := math.LegacyNewDec(int64(msg.Gas())) // #nosec G115
 	minGasMultiplier := k.GetMinGasMultiplier(ctx)
-	minimumGasUsed := gasLimit.Mul(minGasMultiplier)
+	// gas is counted in whole units: round the bound up, so that the charged gas is never below it
+	// (truncating 0.5 * 100001 charged 50000, less than the minimum of 50000.5)
+	minimumGasUsed := gasLimit.Mul(minGasMultiplier).Ceil()
 
 	if !minimumGasUsed.TruncateInt().IsUint64() {
 		return nil, errorsmod.Wrapf(types.ErrGasOverflow, "minimumGasUsed(%s) is not a uint64", minimumGasUsed.TruncateInt().String())
